@@ -88,6 +88,7 @@ type Node struct {
 	Rules []Rule   `json:"rules,omitempty"`
 	Note  string   `json:"note,omitempty"`
 	Dash  bool     `json:"dash,omitempty"`  // rules followed by a dash and no note text: an empty note
+	KNote string   `json:"knote,omitempty"` // properties only: a note written between the key and the value, which stands on the next line
 	TNote string   `json:"tnote,omitempty"` // objects with properties only: a note written after the closing brace (the object's note)
 	Ann   string   `json:"ann,omitempty"` // "block" / "spread": this node's annotation is written as a multi-line annotation whatever the layout says
 }
@@ -547,6 +548,9 @@ func (r *renderer) node(n Node, path string, depth int, tail string) {
 				r.sb.WriteString(quoteKey(string(p.K)))
 			}
 			r.sb.WriteString(colon)
+			if p.N.KNote != "" {
+				r.sb.WriteString("// " + p.N.KNote + r.l.NL + ind + r.l.Indent)
+			}
 			t := ","
 			if i == len(n.Props)-1 {
 				t = ""
